@@ -21,7 +21,7 @@ pass_without=$(echo "$wo" | grep "^test result" | sed -E 's/.* ([0-9]+) passed.*
 git apply SEED/patch.diff
 echo "with change:    passed=$pass_with failed: $(echo "$fails_with" | tr '\n' ' ')"
 echo "without change: passed=$pass_without failed: $(echo "$fails_without" | tr '\n' ' ')"
-echo "$w" | grep -q "^error" && { echo "BUILD ERROR with change"; exit 1; }
+echo "$w" | grep -qE "^error(\[E|: could not compile)" && { echo "BUILD ERROR with change"; exit 1; }
 nfail=$(echo "$fails_with" | grep -c .)
 ok=1
 [ "$nfail" -ge 1 ] || ok=0
